@@ -5,7 +5,7 @@ CONSTANTS N = 3
           Buffered = FALSE
           RestartsOnLateRequest = TRUE
           Replenish = FALSE
-          Grants = {1, 2, 99}
+          Grants = {0, 1, 2, 99}
           Big = 99
           MaxCalls = 3
           MaxSteps = 2
